@@ -290,8 +290,8 @@ def tuneSrcSrc : List GE := [
   ⟨[("if", (.not (.atom "constrained.individuals"))), ("if", (.cmp .lt "prob().env.individuals" "4"))], "set", "prob().env.individuals", "4"⟩,
   ⟨[("if", (.not (.atom "constrained.individuals")))], "set", "prob().env.individuals", "max({prob().env.individuals, constrained.min_individuals, constrained.tournament_size})"⟩,
   ⟨[("if", (.not (.atom "constrained.individuals"))), ("if", (.not (.atom "constrained.tournament_size")))], "set", "prob().env.tournament_size", "min(prob().env.tournament_size, prob().env.individuals)"⟩,
-  ⟨[("if", (.and (.not (.atom "constrained.dss.has_value()")) (.cmp .eq "typeid(vs_.get())" "typeid(dss)")))], "set", "prob().env.dss", "dflt.dss"⟩,
-  ⟨[("if", (.and (.not (.atom "constrained.validation_percentage.has_value()")) (.cmp .eq "typeid(vs_.get())" "typeid(holdout_validation)")))], "set", "prob().env.validation_percentage", "dflt.validation_percentage"⟩]
+  ⟨[("if", (.and (.not (.atom "constrained.dss.has_value()")) (.cmp .eq "typeid(*vs_)" "typeid(dss)")))], "set", "prob().env.dss", "dflt.dss"⟩,
+  ⟨[("if", (.and (.not (.atom "constrained.validation_percentage.has_value()")) (.cmp .eq "typeid(*vs_)" "typeid(holdout_validation)")))], "set", "prob().env.validation_percentage", "dflt.validation_percentage"⟩]
 
 def tuneGaSrc : List GE := [
   ⟨[], "call", "", "tune_parameters()"⟩,
